@@ -32,6 +32,11 @@ def contention(ctx):
     ctx.coverage["contention_keys"] = r["keys"]
     ctx.coverage["contention_goroutines_per_key"] = gor
     ctx.coverage["contention_not_once"] = len(r["not_once"])
+    ctx.coverage["generic_instantiations_runs"] = r.get("generic_runs")
+    if r.get("generic_runs") and r["generic_runs"] != [1, 1]:
+        # matched by the known finding F23 (kind + shape); any other shape of conflation stays a violation
+        ctx.violation({"kind": "generic-instantiations-conflated", "runs": r["generic_runs"]},
+                      case={"call": "mg.Deps(genericDep[int], genericDep[string])"})
     if r["not_once"]:
         ctx.violation({"kind": "oracle", "oracle": "C01", "clauses": ["under contention %d of %d fresh dependencies requested by %d goroutines at once did not run exactly once (executions per key: %s)"
                                                                        % (len(r["not_once"]), r["keys"], gor, dict(list(r["not_once"].items())[:5]))]}, case=spec)
